@@ -311,25 +311,32 @@ def corpus_cases(prop_id):
     return res
 
 
-def shrink(case, still_fails, budget=200):
-    """Greedy delta-debugging on the operation lines of one case (header and 'end' kept)."""
+def shrink(case, still_fails, budget=200, removable=None):
+    """Greedy delta-debugging on the operation lines of one case (header and 'end' kept).
+    `removable(line)` restricts which lines may be deleted (the scaffolding of a case stays)."""
     head, ops, tail = case[0], case[1:-1], case[-1]
+    removable = removable or (lambda l: True)
     n = 2
-    while len(ops) >= 1 and budget > 0:
-        size = max(1, len(ops) // n)
+    while budget > 0:
+        idx = [i for i, l in enumerate(ops) if removable(l)]
+        if not idx:
+            break
+        size = max(1, len(idx) // n)
         changed = False
-        i = 0
-        while i < len(ops) and budget > 0:
-            cand = ops[:i] + ops[i + size:]
+        j = 0
+        while j < len(idx) and budget > 0:
+            drop = set(idx[j:j + size])
+            cand = [l for i, l in enumerate(ops) if i not in drop]
             budget -= 1
             if still_fails([head] + cand + [tail]):
                 ops = cand; changed = True
+                idx = [i for i, l in enumerate(ops) if removable(l)]
             else:
-                i += size
+                j += size
         if not changed:
             if size == 1:
                 break
-            n = min(len(ops), n * 2)
+            n = min(len(idx), n * 2)
     return [head] + ops + [tail]
 
 
